@@ -378,7 +378,7 @@ func repoPackages(root string) []string {
 		}
 		if d.IsDir() {
 			if p != root {
-				if strings.HasPrefix(d.Name(), ".") || d.Name() == "testdata" || d.Name() == "vendor" {
+				if strings.HasPrefix(d.Name(), ".") || d.Name() == "testdata" || d.Name() == "vendor" || (d.Name() == "examples" && filepath.Dir(p) == root) {
 					return filepath.SkipDir
 				}
 				if _, err := os.Stat(filepath.Join(p, "go.mod")); err == nil {
